@@ -370,12 +370,17 @@ def colToJson {V : Type} (K : Caster V) (c : Col V) : Except Err (Raw V) :=
             lowest_value := em "lowest_value" l, expectations := em "expectations" ex }
     | _, _, _, _ => .error .type
 
-/-- `FlatColumn.from_dict` (:354-362): the value of `_MISSING_TYPE` is mapped back to the member, then
-`cls(**dic)`.  (`dic.get("type") == "0"` is false for the int 0.) -/
+/-- `dic.get("element_type") == '0'` -> the member (repair C16-F08) -/
+def restoreElem (e : Option (Option RawTy)) : Option (Option RawTy) :=
+  if e = some (some (.text (TypeName.valueOf missingName))) then some (some (.member missingName)) else e
+
+/-- `FlatColumn.from_dict`: the value of `_MISSING_TYPE`, written for an untyped column and for an untyped
+element type, is mapped back to the member, then `cls(**dic)`.  (`dic.get("type") == "0"` is false for the
+int 0.) -/
 def colFromDict {V : Type} (K : Caster V) (fresh : String) (d : Raw V) : Except Err (Col V) :=
   if d.type = some (.text (TypeName.valueOf missingName)) then
-    init K fresh { d with type := some (.member missingName) }
-  else init K fresh d
+    init K fresh { d with type := some (.member missingName), element_type := restoreElem d.element_type }
+  else init K fresh { d with element_type := restoreElem d.element_type }
 
 /-- `FlatColumn.from_json(c.to_json())` -/
 def jsonRoundTrip {V : Type} (K : Caster V) (fresh : String) (c : Col V) : Except Err (Col V) :=
@@ -498,7 +503,7 @@ element type a base type, an ARRAY names its element type (a bare `'ARRAY'` is r
 default element type — `array_without_element_type_changes`), the disposition is a member. -/
 def Persistable {V : Type} (c : Col V) : Prop :=
   (∃ m, c.type = .member m ∧ m ∈ persistableTypes)
-  ∧ (∀ e, c.element_type = some e → ∃ m, e = .member m ∧ m ∈ TypeName.baseTypes)
+  ∧ (∀ e, c.element_type = some e → ∃ m, e = .member m ∧ m ∈ persistableTypes)
   ∧ (c.type = .member TypeName.litArray → c.element_type.isSome = true)
   ∧ (∀ n, c.disposition = some n → n ∈ dispositions.map Prod.fst)
 
